@@ -132,9 +132,23 @@ def apply_live(built, op):
             value = built.kw_value(op["kw"], op["val"]["set"])
         setattr(target, op["kw"], value)
     elif op["op"] == "set_prop":
-        target.properties[op["attr"]] = built.prop(op["prop"])
+        # every ordinary way of putting a property into the container
+        via = op.get("via", "setitem")
+        prop = built.prop(op["prop"])
+        if via == "update":
+            target.properties.update({op["attr"]: prop})
+        elif via == "ior":
+            props = target.properties
+            props |= {op["attr"]: prop}
+        elif via == "setdefault" and op["attr"] not in target.properties:
+            target.properties.setdefault(op["attr"], prop)
+        else:
+            target.properties[op["attr"]] = prop
     elif op["op"] == "del_prop":
-        del target.properties[op["attr"]]
+        if op.get("via") == "pop":
+            target.properties.pop(op["attr"])
+        else:
+            del target.properties[op["attr"]]
     elif op["op"] == "replace_props":
         if op["props"] is None:
             target.properties = NotPassed()
@@ -280,7 +294,7 @@ def gen_reconfig_for(rng, wg, model, path, kind, node, want_props, allow_parent=
         sub = rng.random()
         if props and sub < 0.3:
             attr = rng.choice(list(props))
-            return {"op": "del_prop", "path": path, "attr": attr}
+            return {"op": "del_prop", "path": path, "attr": attr, "via": rng.choice(["del", "del", "pop"])}
         if props is not None and sub < 0.8:
             if props and rng.random() < 0.5:
                 attr = rng.choice(list(props))  # replace
@@ -291,7 +305,13 @@ def gen_reconfig_for(rng, wg, model, path, kind, node, want_props, allow_parent=
                 "required": rng.random() < 0.5,
                 "source": None,
             }
-            return {"op": "set_prop", "path": path, "attr": attr, "prop": pspec}
+            return {
+                "op": "set_prop",
+                "path": path,
+                "attr": attr,
+                "prop": pspec,
+                "via": rng.choice(["setitem", "setitem", "update", "ior", "setdefault"]),
+            }
         if kname == "Element" and props is not None and rng.random() < 0.2:
             return {"op": "replace_props", "path": path, "props": None}
         new = wg.props(2, 0)
@@ -471,6 +491,8 @@ def exec_case(case, log, stats):
             stats.inc("reconfig:" + op["op"])
             if op["op"] == "set_kw" and "unset" in op["val"]:
                 stats.inc("reconfig:unset_kw")
+            if op.get("via") not in (None, "setitem", "del"):
+                stats.inc("reconfig:via_" + op["via"])
             if op["path"] and op["path"][0][0] == "class" and len(op["path"]) == 1:
                 stats.inc("reconfig:on_class")
             continue
